@@ -27,7 +27,11 @@
 (***************************************************************************)
 EXTENDS Integers, Sequences, FiniteSets, TLC
 
-CONSTANTS MaxV, NotInPrunesOnBound, FlatListIsOr, RowFilterSkipsPartition
+CONSTANTS MaxV, NotInPrunesOnBound, FlatListIsOr, RowFilterSkipsPartition,
+          MaskedNulls,  \* the column is a nullable (masked) integer: a missing cell compares as NA, which the row
+                        \* filter turns into "no match" also for != (numpy NaN / None compare unequal = match)
+          ZeroIsEmpty   \* the column class maps value 0 to the EMPTY string: its stored bound b'' is falsy, and the
+                        \* reader's `s.min or s.min_value` then sees no bound at all (statistics state "partial")
 
 NULL   == -9
 NoPart == -9
@@ -75,8 +79,10 @@ StatsOf(rg, col) ==
   [has |-> rg.stats,
    nulls |-> Cardinality({r \in DOMAIN rg.rows : rg.rows[r][col] = NULL}),
    n |-> Len(rg.rows),
-   min |-> IF NonNull(rg, col) = {} THEN NoVal ELSE Min(NonNull(rg, col)),
-   max |-> IF NonNull(rg, col) = {} THEN NoVal ELSE Max(NonNull(rg, col))]
+   min |-> IF NonNull(rg, col) = {} \/ (ZeroIsEmpty /\ col = "x" /\ Min(NonNull(rg, col)) = 0) THEN NoVal
+           ELSE Min(NonNull(rg, col)),
+   max |-> IF NonNull(rg, col) = {} \/ (ZeroIsEmpty /\ col = "x" /\ Max(NonNull(rg, col)) = 0) THEN NoVal
+           ELSE Max(NonNull(rg, col))]
 
 ----------------------------------------------------------------------------
 (* MECHANISM: pruning.  None is NoVal. *)
@@ -118,7 +124,8 @@ FilterOutStatsV(rg, g, onBound) ==
        /\ LET s == StatsOf(rg, col) IN
           \* the writer records null_count in every chunk, min/max only when statistics are requested
           \/ s.nulls = s.n                                  \* "skip row groups with no valid values"
-          \/ s.has /\ FilterValV(g[ai].op, g[ai].c, s.min, s.max, onBound)
+          \* filter_val is consulted even without min/max (both bounds None): `in []` then still excludes
+          \/ FilterValV(g[ai].op, g[ai].c, IF s.has THEN s.min ELSE NoVal, IF s.has THEN s.max ELSE NoVal, onBound)
 (* filter_out_cats: the partition value compared as a degenerate range *)
 FilterOutCatsV(rg, g, onBound) ==
   /\ rg.p # NoPart
@@ -133,7 +140,7 @@ Keep(rg, prog) == KeepV(rg, prog, NotInPrunesOnBound)
 (* MECHANISM: row filter (ParquetFile._column_filter on the pruned frame) *)
 RowAtom(rg, r, a) ==        \* pandas element-wise semantics: NaN/None compares False, != and ~isin give True
   LET v == CellOf(rg, r, a.col) IN
-  IF v = NULL THEN a.op \in {"!=", "not in"} ELSE Cmp(a.op, v, a.c)
+  IF v = NULL THEN (a.op = "not in" \/ (a.op = "!=" /\ ~(MaskedNulls /\ a.col # "p"))) ELSE Cmp(a.op, v, a.c)
 RowSel(rg, r, prog) ==
   IF IsFlat(prog) /\ FlatListIsOr
   THEN \E ai \in DOMAIN Groups(prog)[1] :
